@@ -4,6 +4,46 @@ SOURCE_COMMITS = []
 NOT_BUILT_REASON = {}
 
 META = {
+    "C01": {
+        "technique": "rapid PBT: generated data x grammar-derived log queries x storage capability subsets, compared with a reference LogQL pipeline model and differentially between capability configurations",
+        "text": "Engine.Eval over a mock storage is compared with an independent reference evaluator (selector, line filters incl. ip(), typed label predicates, json/logfmt/regexp/pattern by construction, distinct, rewriting stages) on the multiset of (timestamp, line, labels); each query runs under a drawn subset of the 2^4 x 2^4 offloadable operators and under none, and both runs must agree. Exploration of a large structured input space with measured class distribution.",
+        "note": "Trusted base: Go regexp, net/netip, strconv, time; the harness's SI/IEC byte table; the mock storage applying offloaded matchers with the model's semantics. Ambiguous LogQL corners are excluded by construction (see assumptions in the evidence).",
+    },
+    "C08": {
+        "technique": "rapid PBT: invariants over the stream partition + reference model for membership/limit (time-prefix predicate)",
+        "text": "Generated queries with label-rewriting stages and quoting-sensitive label values are evaluated with limits around the number of matches; the result must have unique stream label sets, entries in the stream of exactly their labels, per-stream time order, min(L,N) entries forming a time-prefix of the model's matches.",
+        "note": "Records are handed to the engine in time order (storage contract). Same trusted base as C01.",
+    },
+    "C09": {
+        "technique": "rapid PBT against a naive window model; three-way metamorphic cross-check (grid, instant at every grid point, second grid)",
+        "text": "For every range function the engine implements, every reported point must equal f over exactly the samples in [T-o-r, T-o], stamped T, computed by a two-pass reference model; the same data is evaluated on a drawn grid, as instant queries at each grid point and on a second grid sharing points, which makes step- and history-independence explicit.",
+        "note": "Float tolerance 1e-9 relative. Unwrap values convertible by construction. Storage returns the exact interval or a superset.",
+    },
+    "C10": {
+        "technique": "rapid PBT with planted structural hash collisions and repetition for map-order; invariants (unique label sets, conservation) + reference model",
+        "text": "Label names/values are drawn from mutual prefixes/concatenations and half of such cases plant two label sets with identical concatenations; each case is evaluated 5 times with fresh engines so that Go's randomised map iteration is sampled. No duplicate series, series set and values equal to the model, per-step totals conserved.",
+        "note": "Random 64-bit hash collisions are out of reach; only structural collisions (order, separators) are searched for.",
+    },
+    "C11": {
+        "technique": "rapid PBT: reference model for the seven value aggregations, validity predicates for topk/bottomk/sort, nesting to depth 3",
+        "text": "Vector aggregations over generated range-aggregation inputs with by/without/no clause, empty and non-existent labels and nested clauses are compared with a reference model; topk/bottomk/sort are checked with validity predicates because ties admit several answers.",
+        "note": "topk/bottomk/sort only outermost; no NaN inputs.",
+    },
+    "C12": {
+        "technique": "rapid PBT against a per-step reference model of binary operations (label-set join, literal side, set operators)",
+        "text": "Vector-vector and vector-scalar operations over generated overlapping/disjoint/empty sides with all 15 operators, literal on either side, instant and range queries, compared point by point with a reference model.",
+        "note": "bool and on/ignoring/group_* not generated. Float tolerance 1e-9, NaN equals NaN.",
+    },
+    "C13": {
+        "technique": "rapid PBT: harness-side precedence-climbing parser + evaluator as reference; differential check against the explicitly parenthesised reading; defect model to pin the known finding",
+        "text": "Operator chains over vector(v) operands are evaluated by the engine and by the harness's own conventional parser/evaluator; the bare chain must equal its conventional reading and the explicitly parenthesised text. The known finding (equal precedence associates right) is recognised only when the result equals the right-associative defect model; any other deviation is a violation.",
+        "note": "Known finding C13-equal-precedence-right-assoc is pinned by parser_test.go and therefore reported, not repaired.",
+    },
+    "C19": {
+        "technique": "rapid PBT with metamorphic relations (sub-multiset, negation partition, commutation, idempotence, and/or as intersection/union, neutral filter)",
+        "text": "Eleven related queries per case are evaluated on the same data and compared as multisets of (timestamp, line); no reference model is involved, so the check is independent of the harness's LogQL model.",
+        "note": "Unique timestamps identify records. Filters are stateless and do not mention __error__.",
+    },
     "C03": {
         "technique": "rapid PBT: round trip + differential against a slice-based reference decoder over generated fragmentations and faults (all truncation offsets per stream); native differential fuzzing in thorough",
         "text": "Generated record sequences are encoded by the harness's own encoder, delivered through a reader with a generated fragmentation plan and decoded by dockerlog.ParseLog; the outcome (records, clean end vs error) must equal that of an obviously-correct slice-based reference decoder, and un-faulted streams must round-trip exactly. Faults: every truncation offset of the stream, bad timestamp, missing separator, daemon error frame, transport error at a byte offset. Exploration within the stated bounds; the thorough tier adds a coverage-guided byte-level differential fuzz target.",
